@@ -515,9 +515,27 @@ def register_add_node(reg):
         types=dict(STR=STR, INT=INT, Node=Node), ufuns={"split_colon_2": ([STR], LINE)},
         raises={"ValueError": "*", "AssertionError": "*"}, locals=dict(tags=ListT(STR)),
         requires=wf("self"),
-        loops={1: Loop(index="it1", fingerprint="for tag in tags", invariant=dict(frame, **{"still-a-node": "node_id in self.nodes and node_id == old(node_id)"}))},
+        ghost=dict(lastidx=MapT(STR, INT)),
+        spec_funcs={"name": "lambda t: split_colon_2(val(tags)[t])[0]", "typ": "lambda t: split_colon_2(val(tags)[t])[1]", "tval": "lambda t: split_colon_2(val(tags)[t])[2]",
+                    "T": "lambda: self.nodes[node_id].tags"},
+        ghost_at={"after:self[node_id].tags[tag[0]] = ": "lastidx[name(it1 - 1)] = it1 - 1"},
+        loops={1: Loop(index="it1", fingerprint="for tag in tags", invariant=dict(frame, **{
+            "still-a-node": "node_id in self.nodes and node_id == old(node_id)",
+            # the tag dictionary of the new node: every S-line tag seen so far is stored as (type, value); a repeated name keeps its last occurrence
+            "tags-stored": "forall(lambda t: implies(0 <= t < it1, name(t) in T() and t <= lastidx[name(t)] < it1 and name(lastidx[name(t)]) == name(t) and "
+                           "T()[name(t)] == (typ(lastidx[name(t)]), tval(lastidx[name(t)]))))",
+            "only-those-tags": "forall(STR, lambda k: implies(k in T(), 0 <= lastidx[k] < it1 and name(lastidx[k]) == k))",
+        }))},
         ensures=dict(list(frame.items()) + [
-            ("nothing-changes-when-the-id-exists", "implies(old(node_id) in old(self).nodes, same(self.nodes, old(self).nodes))")] + [
+            ("nothing-changes-when-the-id-exists", "implies(old(node_id) in old(self).nodes, same(self.nodes, old(self).nodes))"),
+            ("every-tag-stored-as-type-and-value", "implies(old(node_id) not in old(self).nodes and not is_none(old(tags)), forall(lambda t: implies(0 <= t < len(val(old(tags))), "
+             "split_colon_2(val(old(tags))[t])[0] in self.nodes[old(node_id)].tags and t <= lastidx[split_colon_2(val(old(tags))[t])[0]] < len(val(old(tags))) and "
+             "split_colon_2(val(old(tags))[lastidx[split_colon_2(val(old(tags))[t])[0]]])[0] == split_colon_2(val(old(tags))[t])[0] and "
+             "self.nodes[old(node_id)].tags[split_colon_2(val(old(tags))[t])[0]] == (split_colon_2(val(old(tags))[lastidx[split_colon_2(val(old(tags))[t])[0]]])[1], "
+             "split_colon_2(val(old(tags))[lastidx[split_colon_2(val(old(tags))[t])[0]]])[2]))))"),
+            ("no-other-tags", "implies(old(node_id) not in old(self).nodes and not is_none(old(tags)), forall(STR, lambda k: implies(k in self.nodes[old(node_id)].tags, "
+             "0 <= lastidx[k] < len(val(old(tags))) and split_colon_2(val(old(tags))[lastidx[k]])[0] == k)))"),
+            ("no-tags-without-tags", "implies(old(node_id) not in old(self).nodes and is_none(old(tags)), forall(STR, lambda k: k not in self.nodes[old(node_id)].tags))")] + [
             (k, dict(expr=v, **{"from": ["node-set", "existing-adjacency-untouched", "new-node-has-no-links"]})) for k, v in _wfd("self", "").items()]),
         exc_ensures={"ValueError": dict(frame), "AssertionError": dict(frame)},
         notes="GFA.__setitem__'s isinstance(value, Node) test is not modelled (the value is the Node just built); logging is dropped",
